@@ -9,6 +9,8 @@ package register
 //@   property C01 C09 C19 C18 C17
 //@   -- C09: the login that follows a registration is announced with the after-register event
 //@   ensures[C09] login_announced: each Sess.Put("uid", _) => before Fire("After", EventRegister, _, _, _)
+//@   -- C09: the stamp the announcement queues is not taken back by anything queued after it
+//@   ensures[C09] stamp_survives: each Fire("After", EventRegister, _, _, _) => !(after Sess.DelAll(_)) && !(after Sess.Del("last_action"))
 //@   ensures[C17] no_secret_leak: secrets_clean
 //@   invariant loop#1 preserve_only: true
 //@   -- C19: nothing is created when validation fails
